@@ -37,7 +37,7 @@ _FORMAT_STRING_REGEX = r"""
         (?P<mapping_key>\([^\)]+\))?
         (?P<conversion_flags>[#0\- +]+)?
         (?P<field_width>\*|\d+)?
-        (?P<precision>\.(\*|\d+))?
+        (?P<precision>\.(\*|\d*))?
         (?P<length_modifier>[hlL])?
         (?P<conversion_type>[diouxXeEfFgGcrs%ba])
     |
@@ -96,7 +96,8 @@ class ConversionSpecifier:
             field_width = cls._parse_int_field(field_width)
         precision = match.group("precision")
         if precision is not None:
-            precision = cls._parse_int_field(precision[1:])
+            # a "." that is not followed by digits means a precision of zero
+            precision = cls._parse_int_field(precision[1:] or "0")
         return cls(
             conversion_type=cls._maybe_decode(conversion_type),
             mapping_key=(
